@@ -41,12 +41,16 @@ impl Prop for C01 {
         "C01"
     }
     fn phases(&self, tier: Tier) -> Vec<PhaseSpec> {
-        vec![ph("class-forcing", N_FORCED), ph("random-trees", tier.pick(150_000, 10_000_000))]
+        vec![ph("class-forcing", N_FORCED), ph("random-trees", tier.pick(150_000, 10_000_000)), ph("python-facing operator methods of Dual", tier.pick(20_000, 1_000_000))]
     }
     fn required_classes(&self, _tier: Tier) -> Vec<String> {
         let mut v = required_ad_classes();
         v.push("route:Number-with-bare-floats".to_string());
         v.push("route:Number-with-wrapped-floats".to_string());
+        for m in ["__add__", "__radd__", "__sub__", "__rsub__", "__mul__", "__rmul__", "__truediv__", "__rtruediv__", "__pow__", "__neg__", "__abs__", "__exp__", "__log__", "__norm_cdf__", "__norm_inv_cdf__"] {
+            v.push(format!("py:Dual:{}", m));
+        }
+        v.push("py:conversions".to_string());
         v
     }
     fn min_evaluations(&self, tier: Tier) -> u64 {
@@ -66,6 +70,16 @@ impl Prop for C01 {
         ctx.extra.insert("max_band_use_of_16".into(), json!(crate::refad::max_band_use()));
     }
     fn run_case(&mut self, ctx: &mut Ctx, phase: usize, idx: u64, rng: &mut Rng) {
+        if phase == 2 {
+            // what Python calls for `x op y`, `y op x`, comparisons and the unary functions
+            super::pylayer::dual_layer(ctx, "C01", rng);
+            if idx % 4 == 0 {
+                super::pylayer::dual_conversions(ctx, "C01", rng);
+            }
+            ctx.distinct(crate::util::hash_u64s(&[0x9e, idx]));
+            ctx.sample("python-layer", || json!({"methods": ["__add__", "__radd__", "__sub__", "__rsub__", "__mul__", "__rmul__", "__truediv__", "__rtruediv__", "__pow__", "__eq__", "__lt__", "__le__", "__gt__", "__ge__", "__neg__", "__abs__", "__exp__", "__log__", "__norm_cdf__", "__norm_inv_cdf__", "__float__", "to_dual2", "vars_from"], "operand_kinds": ["same kind", "float", "other derivative order (refused)"]}));
+            return;
+        }
         let noise_seed = rng.next();
         let mut g = Gen::new(rng, 1);
         let e = if phase == 0 {
